@@ -41,6 +41,7 @@ let show_warn = function
   | WDup l -> "D!" ^ field_of_str l
   | WUnref (l, a) -> "U!" ^ field_of_str l ^ "!" ^ (if a then "a" else "m")
   | WTooMany -> "X"
+  | WUnrefSymbol -> "S"
 
 let rec show_ltop = function
   | LOther -> "O" | LMsg -> "M" | LTrans -> "T"
